@@ -1,5 +1,5 @@
 (* Proofs about Tsg/Safeguard.v: the physical soundness of the start-up time check. *)
-From Coq Require Import ZArith List Bool Lia.
+From Coq Require Import ZArith List Bool Lia Permutation.
 From RV Require Import Tsg.Safeguard.
 Import ListNotations.
 Local Open Scope Z_scope.
@@ -112,6 +112,61 @@ Theorem refuse_instant_measurement_is_off st r theta :
   explains theta (st, st, r) -> ET <= worst st st r -> ET <= Z.abs theta.
 Proof. unfold explains, worst. intros [t [Ht ->]] H. lia. Qed.
 
+(* the title statement, directly: if the clock COULD be off by >= ET with respect to some
+   answering peer (some offset of that magnitude is consistent with the measurement), the
+   node refuses to join and names that peer *)
+Theorem could_be_off_refuses ms st en r theta :
+  In (Meas st en (Some r)) ms -> explains theta (st, en, r) -> ET <= Z.abs theta ->
+  decide false ms = Refuse (offenders (answered ms)) /\ In (st, en, r) (offenders (answered ms)).
+Proof.
+  intros Hin Hex Hoff. pose proof (worst_bounds_offset _ _ _ _ Hex) as Hw.
+  apply answered_in in Hin.
+  assert (Hx : In (st, en, r) (answered ms) /\ ET <= worst3 (st, en, r)) by (split; [exact Hin|simpl; lia]).
+  destruct (refuse ms (ex_intro _ _ Hx)) as [Hd Hspec]. split; [exact Hd|]. now apply Hspec.
+Qed.
+
+(* the peers answer on goroutines, in any order: the verdict does not depend on the order
+   in which the measurements were collected, and the same peers are named *)
+Lemma answered_perm ms ms' : Permutation ms ms' -> Permutation (answered ms) (answered ms').
+Proof.
+  unfold answered. induction 1 as [|x l l' _ IH|x y l|l l' l'' _ IH1 _ IH2]; simpl.
+  - constructor.
+  - now apply Permutation_app_head.
+  - rewrite !app_assoc. apply Permutation_app_tail, Permutation_app_comm.
+  - now transitivity (flat_map (fun m => match m_result m with Some r => [(m_start m, m_end m, r)] | None => [] end) l').
+Qed.
+
+Lemma in_sync_perm rs rs' : Permutation rs rs' -> in_sync rs = in_sync rs'.
+Proof.
+  intros HP. destruct (in_sync rs) eqn:E1, (in_sync rs') eqn:E2; try reflexivity.
+  - rewrite in_sync_spec in E1. apply not_in_sync_iff in E2. destruct E2 as [x [Hx Hw]].
+    apply Permutation_sym in HP. pose proof (E1 x (Permutation_in _ HP Hx)). lia.
+  - rewrite in_sync_spec in E2. apply not_in_sync_iff in E1. destruct E1 as [x [Hx Hw]].
+    pose proof (E2 x (Permutation_in _ HP Hx)). lia.
+Qed.
+
+Definition same_verdict (a b : decision) : Prop :=
+  match a, b with
+  | Accept, Accept => True
+  | AcceptDisabled o, AcceptDisabled o' => Permutation o o'
+  | Refuse o, Refuse o' => Permutation o o'
+  | _, _ => False
+  end.
+
+Theorem order_irrelevant d ms ms' : Permutation ms ms' -> same_verdict (decide d ms) (decide d ms').
+Proof.
+  intros HP. apply answered_perm in HP. unfold Safeguard.decide.
+  rewrite (in_sync_perm _ _ HP). destruct (in_sync (answered ms')); simpl; [exact I|].
+  assert (Permutation (offenders (answered ms)) (offenders (answered ms'))) as HO.
+  { unfold Safeguard.offenders. clear -HP.
+    induction HP as [|x l l' _ IH|x y l|l l' l'' _ IH1 _ IH2]; simpl.
+    - constructor.
+    - destruct (ET <=? worst3 x); [now constructor|exact IH].
+    - destruct (ET <=? worst3 x), (ET <=? worst3 y); try reflexivity. apply perm_swap.
+    - now transitivity (filter (fun x => ET <=? worst3 x) l'). }
+  destruct d; exact HO.
+Qed.
+
 End WithET.
 
 (* non-vacuity, at the value compiled into the pinned tree *)
@@ -123,3 +178,12 @@ Proof. split; [reflexivity|]. exists 250000000. lia. Qed.
 Example refuse_premises_met :
   decide ET2s false [Meas 0 500000000 (Some 3600000000000)] = Refuse [(0, 500000000, 3600000000000)].
 Proof. reflexivity. Qed.
+Example could_be_off_premises_met :
+  explains 3599999999999 (0, 500000000, 3600000000000) /\ ET2s <= Z.abs 3599999999999.
+Proof. split; [exists 1; lia|unfold ET2s; lia]. Qed.
+Example order_irrelevant_nontrivial :
+  decide ET2s false [Meas 0 5 (Some 3600000000000); Meas 0 10 None; Meas 1 6 (Some 7200000000000)] =
+    Refuse [(0, 5, 3600000000000); (1, 6, 7200000000000)] /\
+  decide ET2s false [Meas 1 6 (Some 7200000000000); Meas 0 5 (Some 3600000000000); Meas 0 10 None] =
+    Refuse [(1, 6, 7200000000000); (0, 5, 3600000000000)].
+Proof. split; reflexivity. Qed.
